@@ -42,21 +42,25 @@ func jobsFor(prop, tier string) []Job {
 		typedJobs("trees", add)
 		typedJobs("hashmaps", add)
 		typedJobs("bidi", add)
+		treadmillJobs([]string{"rbt", "avl", "btree", "treemap", "hashmap", "linkedhashmap", "treebidimap", "hashbidimap"}, add)
 	case "C02":
 		defaultCtorJobs(prop, q, add)
 		kvTreeJobs(prop, q, add)
 		bidiJobs(prop, q, add)
 		typedJobs("trees", add)
 		typedJobs("bidi", add)
+		treadmillJobs([]string{"rbt", "avl", "btree", "treemap", "treeset"}, add)
 	case "C07":
 		kvTreeJobs(prop, q, add)
 		jsonFamilyJobs(q, add)
 		defaultCtorJobs(prop, q, add)
 		bidiJobs(prop, q, add)
 		typedJobs("trees", add)
+		treadmillJobs([]string{"rbt", "avl", "btree", "treemap"}, add)
 	case "C10":
 		bidiJobs(prop, q, add)
 		typedJobs("bidi", add)
+		treadmillJobs([]string{"treebidimap", "hashbidimap"}, add)
 	case "C03":
 		n := pick(6, 8)
 		for _, k := range []string{"arraylist", "singlylinkedlist", "doublylinkedlist"} {
@@ -67,6 +71,8 @@ func jobsFor(prop, tier string) []Job {
 			add("list", fmt.Sprintf("%s.deep.n%d", k, dn), n, map[string]string{"c": k}, map[string]int{"n": dn, "deep": 1})
 		}
 		typedJobs("lists", add)
+		xlJobs(q, []string{"arraylist", "singlylinkedlist", "doublylinkedlist"}, add)
+		treadmillJobs([]string{"arraylist", "singlylinkedlist", "doublylinkedlist"}, add)
 	case "C04":
 		u := pick(4, 5)
 		add("set", fmt.Sprintf("hashset.u%d", u), u, map[string]string{"c": "hashset"}, map[string]int{"u": u})
@@ -88,9 +94,12 @@ func jobsFor(prop, tier string) []Job {
 			add("kv", fmt.Sprintf("treeset.rank.%s.n%d", c, n), n*n, map[string]string{"c": "treeset", "cmp": c}, map[string]int{"n": n, "rank": 1})
 		}
 		typedJobs("sets", add)
+		xlJobs(q, []string{"hashset", "linkedhashset"}, add)
+		treadmillJobs([]string{"hashset", "linkedhashset", "treeset"}, add)
 	case "C06":
 		typedJobs("heaps", add)
 		rewoundJobs("heaps", q, add)
+		treadmillJobs([]string{"binaryheap", "priorityqueue"}, add)
 		for _, k := range []string{"binaryheap", "priorityqueue"} {
 			add("heapnew", fmt.Sprintf("%s.New.n%d", k, pick(6, 8)), 30, map[string]string{"c": k}, map[string]int{"n": pick(6, 8), "u": 3})
 			add("heapnewf", fmt.Sprintf("%s.New.float.n%d", k, pick(5, 6)), 30, map[string]string{"c": k}, map[string]int{"n": pick(5, 6), "u": pick(4, 5)})
@@ -168,6 +177,7 @@ func jobsFor(prop, tier string) []Job {
 			add("family", fmt.Sprintf("btree%d.iterfamily.u%d", m, pick(48, 80)), 10, map[string]string{"c": "btree", "cmp": "nat", "check": "iter"}, map[string]int{"u": pick(48, 80), "m": m})
 		}
 		rewoundJobs("all", q, add)
+		treadmillJobs([]string{"rbt", "btree", "treeset", "binaryheap", "priorityqueue", "doublylinkedlist", "linkedhashmap", "linkedhashset", "treebidimap"}, add)
 		largeJobs("iter", q, largeSeqLike, add)
 		if !q {
 			largeJobs("rewound", q, largeSeqLike, add)
@@ -186,6 +196,7 @@ func jobsFor(prop, tier string) []Job {
 			}
 			add("setalg", fmt.Sprintf("treeset.%s.u%d", c, uu), 5, map[string]string{"c": "treeset", "cmp": c}, map[string]int{"u": uu})
 		}
+		treadmillJobs([]string{"hashset", "linkedhashset", "treeset"}, add)
 	case "C14":
 		n := pick(4, 5)
 		for _, c := range []string{"arraylist", "singlylinkedlist", "doublylinkedlist"} {
@@ -387,6 +398,7 @@ func jobsFor(prop, tier string) []Job {
 		add("linkeddeep", fmt.Sprintf("linkedhashmap.deep.n%d", dn), 3, map[string]string{"c": "linkedhashmap"}, map[string]int{"n": dn, "deep": 1})
 		add("linkeddeep", fmt.Sprintf("linkedhashset.deep.n%d", dn), 3, map[string]string{"c": "linkedhashset"}, map[string]int{"n": dn, "deep": 1})
 		rewoundJobs("linked", q, add)
+		treadmillJobs([]string{"linkedhashmap", "linkedhashset"}, add)
 	case "C05":
 		n := pick(5, 7)
 		for _, k := range []string{"arraystack", "linkedliststack", "arrayqueue", "linkedlistqueue"} {
@@ -414,6 +426,8 @@ func jobsFor(prop, tier string) []Job {
 			add("seq", fmt.Sprintf("ring%d.deep", c), 3, map[string]string{"c": "circularbuffer"}, map[string]int{"cap": c, "deep": 1})
 		}
 		typedJobs("seqs", add)
+		xlJobs(q, []string{"arraystack", "linkedliststack", "arrayqueue", "linkedlistqueue", "circularbuffer"}, add)
+		treadmillJobs([]string{"arrayqueue", "linkedlistqueue", "circularbuffer"}, add)
 	}
 	return jobs
 }
@@ -583,7 +597,41 @@ func largeJobs(check string, q bool, cs []string, add func(kind, id string, w in
 	}
 }
 
+// xlJobs: ONE fill-and-drain history to 1300 / 4500 elements (thresholds at 1024, thorough 4096 elements; the drain
+// crosses every shrink point), the family's transition oracle on every step, the complete state oracle
+// at the multiples of 256 (c18.go largeStatesJob, check "state").  After the tenth wave of seeded changes.
+func xlJobs(q bool, cs []string, add func(kind, id string, w int, s map[string]string, p map[string]int)) {
+	n := 1300
+	if !q {
+		n = 4500
+	}
+	for _, c := range cs {
+		p := map[string]int{"n": n, "deep": 1, "every": 256}
+		if c == "circularbuffer" {
+			p["cap"] = n
+		}
+		add("largestates", "state."+c+".xl", 60, map[string]string{"c": c, "check": "state"}, p)
+	}
+}
+
 var largeSeqLike = []string{"arraylist", "singlylinkedlist", "doublylinkedlist", "arraystack", "linkedliststack", "arrayqueue", "linkedlistqueue", "circularbuffer", "binaryheap", "priorityqueue", "linkedhashset", "linkedhashmap"}
+
+// treadmillJobs: constant-size containers with long unobserved stretches between observations (treadmill.go)
+func treadmillJobs(cs []string, add func(kind, id string, w int, s map[string]string, p map[string]int)) {
+	for _, c := range cs {
+		switch c {
+		case "btree":
+			for _, m := range []int{3, 8} {
+				add("treadmill", fmt.Sprintf("treadmill.btree%d", m), 20, map[string]string{"c": c}, map[string]int{"m": m, "w": 9})
+			}
+		case "rbt":
+			add("treadmill", "treadmill.rbt", 20, map[string]string{"c": c}, map[string]int{"w": 10})
+			add("treadmill", "treadmill.rbt.rev", 20, map[string]string{"c": c, "cmp": "rev"}, map[string]int{"w": 5})
+		default:
+			add("treadmill", "treadmill."+c, 20, map[string]string{"c": c}, map[string]int{"w": 6})
+		}
+	}
+}
 
 type cjob struct {
 	id string
